@@ -16,7 +16,14 @@
      * bool and int are kept apart: arithmetic on a bool, comparison of non-ints, truth value of a
        tuple/string are Unsupported.
      * reading an unbound variable is Unsupported (CPython: UnboundLocalError).
-     * only GarbageHandling.Stop has a meaning: print(...) and sleep(...) are [EUnsupported]. *)
+     * only GarbageHandling.Stop has a meaning: print(...) and sleep(...) are [EUnsupported].
+     * a bool used in arithmetic is 0/1 (as in Python), but `bool op bool` is Unsupported (Python answers a bool there).
+     * bytes are lists of numbers; strings that are data (stdin / stdout text) are lists of code points, and
+       encode/decode are raw_unicode_escape on code points < 256.
+     * lists and tuples are values (VList; pairs also VPair): the translator only lets a list be changed through the
+       attribute that owns it (self.<f>.append(..)), so that copying instead of sharing cannot be observed.
+     * `%` by zero (ZeroDivisionError), range() with a step that is not positive, sorting anything else than pairs of
+       ints are Unsupported. *)
 From FJ Require Import Lib.Base.
 Local Open Scope N_scope.
 
@@ -29,11 +36,14 @@ Inductive value :=
 | VNone
 | VPair (a b : value)                  (* the only tuples used: `return x, y` / `x, y = f(..)` *)
 | VStr                                 (* a message string; its text is never observed *)
-| VTerm (cause : N).                   (* TerminationStatistics(statistics, TerminationCause(cause)) *)
+| VTerm (cause : N)                    (* TerminationStatistics(statistics, TerminationCause(cause)) *)
+| VBytes (l : list N)                  (* a bytes object *)
+| VText (l : list N)                   (* a str that is data: its code points *)
+| VList (l : list value).              (* a list, or a tuple that is not a pair *)
 
 Inductive attr := A_memory_width | A_garbage_handling.     (* Reader.memory_width, Reader.garbage_handling *)
 
-Inductive binop := Add | Sub | Mul | BAnd | BOr | BXor | Shl | Shr.
+Inductive binop := Add | Sub | Mul | BAnd | BOr | BXor | Shl | Shr | Mod.
 Inductive cmpop := Eq | NotEq | Lt | LtE | Gt | GtE.
 
 (* functions that can be called.  F_* are translated from the source (their bodies come from the generated
@@ -42,7 +52,16 @@ Inductive fname :=
 | F_get_memory_word | F_set_memory_word | F_bit_address_decompose | F_read_bit | F_write_bit | F_get_word
 | F_new_garbage_val | F_handle_input | F_handle_output | F_trace_flip | F_trace_jump
 | P_io_read_bit | P_io_write_bit            (* io_device.read_bit() / io_device.write_bit(b) *)
-| P_register_op_address | P_register_op.    (* RunStatistics.register_op_address(ip) / register_op(ip, f, j) *)
+| P_register_op_address | P_register_op     (* RunStatistics.register_op_address(ip) / register_op(ip, f, j) *)
+(* the IO devices (C17): methods of FixedIO and StandardIO; sys.stdin / sys.stdout *)
+| F_fixed_init | F_fixed_read_bit | F_fixed_write_bit | F_fixed_get_output
+| F_std_init | F_std_read_bit | F_std_write_bit | F_std_get_output
+| P_stdin_read | P_stdout_write | P_stdout_flush      (* stdin.read(n) / stdout.write(s) / stdout.flush() *)
+(* the loader (C06/C10): Reader._init_memory and Reader._validate_segments *)
+| F_init_memory | F_validate_segments.
+
+(* the target of a `for` / comprehension: a name or a tuple of targets *)
+Inductive pattern := PVar (x : ident) | PTuple (l : list pattern).
 
 Inductive expr :=
 | EInt (n : N) | EBool (b : bool) | ENone
@@ -60,12 +79,28 @@ Inductive expr :=
 | ECall0 (f : fname) | ECall1 (f : fname) (a : expr) | ECall2 (f : fname) (a b : expr)
 | ECall3 (f : fname) (a b c : expr)
 | ETerm (cause : N)                    (* TerminationStatistics(statistics, TerminationCause.<cause>) *)
-| EUnsupported.                        (* print(..), sleep(..), breakpoint machinery *)
+| EUnsupported                         (* print(..), sleep(..), breakpoint machinery *)
+| EField (f : ident)                   (* self.<f> of a device object *)
+| EBytes (l : list N)                  (* a bytes literal *)
+| EIndex (a i : expr)                  (* a[i]    on bytes *)
+| ESliceFrom (a i : expr)              (* a[i:]   on bytes *)
+| ELen (a : expr)                      (* len(a)  on bytes *)
+| EToBytes1 (a : expr)                 (* a.to_bytes(1, 'little') - OverflowError when a >= 256 *)
+| EEncode (a : expr) | EDecode (a : expr)      (* a.encode / a.decode (encoding='raw_unicode_escape') *)
+| ENil                                 (* [] *)
+| ERange (lo hi step : expr)           (* range(lo, hi, step) as the list of its elements *)
+| EListComp (elt : expr) (p : pattern) (it : expr)     (* [elt for p in it] / the generator (elt for p in it) consumed at once *)
+| ESorted (a : expr)                   (* sorted(a) on pairs of ints (lexicographic) *)
+| EZip (a b : expr).                   (* zip(a, b) consumed at once *)
 
 Inductive exn :=
 | XKeyError                            (* KeyError of a dict read *)
 | XMemory (addr : N)                   (* FlipJumpRuntimeMemoryException(message, addr) *)
-| XEOF.                                (* IOReadOnEOF *)
+| XEOF                                 (* IOReadOnEOF *)
+| XIncomplete                          (* IncompleteOutput *)
+| XOverflow                            (* OverflowError of int.to_bytes *)
+| XIndex                               (* IndexError of x[k] *)
+| XLib (tag : N).                      (* a library exception with a message; tag = which message (translator table) *)
 Inductive exn_class := KKeyError | KEOF.       (* what an `except` clause of the subset can name *)
 
 Inductive stmt :=
@@ -81,18 +116,41 @@ Inductive stmt :=
 | SMemSet (k v : expr)                             (* self.memory[k] = v *)
 | SSetOpCounter (e : expr)                         (* statistics.op_counter = e *)
 | STry (body : stmt) (k : exn_class) (handler : stmt)      (* try: body  except k: handler *)
-| SForZB (x y : ident) (body : stmt).              (* for x, y in self.zeros_boundaries: body *)
+| SForZB (x y : ident) (body : stmt)               (* for x, y in self.zeros_boundaries: body *)
+| SFieldSet (f : ident) (e : expr)                 (* self.<f> = e *)
+| SFieldAug (f : ident) (o : binop) (e : expr)     (* self.<f> o= e *)
+| SRaiseExn (x : exn) (msg : expr)                 (* raise IOReadOnEOF(msg) / IncompleteOutput(msg) / library error *)
+| SMemClear                                        (* self.memory = {} *)
+| SFieldAppend (f : ident) (e : expr)              (* self.<f>.append(e) *)
+| SFor (p : pattern) (it : expr) (body : stmt).    (* for p in it: body   (no break / continue / else) *)
 
 (* ---- 2. state and outcomes -------------------------------------------------------------------- *)
+(* local variables (and the attributes of a device object): an association list, most recent binding first *)
+Definition env := list (ident * value).
+Fixpoint lookup (en : env) (x : ident) : option value :=
+  match en with [] => None | (y, v) :: r => if Pos.eqb x y then Some v else lookup r x end.
+Definition bind (en : env) (x : ident) (v : value) : env := (x, v) :: en.
+
+(* the IO-device side (C17): the attributes of `self`, and sys.stdin / sys.stdout as character lists *)
+Record dev := mkdev {
+  d_self : env;            (* attributes of the device object; the translator prints the name table *)
+  d_stdin : list N;        (* characters stdin will still deliver *)
+  d_stdout : list N        (* characters written to stdout, oldest first *)
+}.
+Definition no_dev : dev := mkdev [] [] [].
+
 (* everything outside the local variables that the subset can read or change *)
 Record world := mkworld {
   w_mem : mem;             (* Reader.memory : dict word address -> word *)
   w_inp : list bool;       (* bits the IO device will still deliver *)
   w_out : list bool;       (* bits written to the IO device, most recent first *)
   w_hist : list N;         (* addresses given to register_op_address, most recent first *)
-  w_opc : N                (* statistics.op_counter *)
+  w_opc : N;               (* statistics.op_counter *)
+  w_dev : dev
 }.
-Definition with_mem (w : world) (pm : mem) : world := mkworld pm w.(w_inp) w.(w_out) w.(w_hist) w.(w_opc).
+Definition with_mem (w : world) (pm : mem) : world := mkworld pm w.(w_inp) w.(w_out) w.(w_hist) w.(w_opc) w.(w_dev).
+Definition with_dev (w : world) (d : dev) : world := mkworld w.(w_mem) w.(w_inp) w.(w_out) w.(w_hist) w.(w_opc) d.
+Definition with_self (w : world) (o : env) : world := with_dev w (mkdev o w.(w_dev).(d_stdin) w.(w_dev).(d_stdout)).
 
 (* the Reader's immutable fields *)
 Record config := mkconfig {
@@ -100,12 +158,6 @@ Record config := mkconfig {
   c_garbage : N;                   (* self.garbage_handling as an int (GarbageHandling.Stop = 0) *)
   c_zeros : list (N * N)           (* self.zeros_boundaries *)
 }.
-
-(* local variables: an association list, most recent binding first *)
-Definition env := list (ident * value).
-Fixpoint lookup (en : env) (x : ident) : option value :=
-  match en with [] => None | (y, v) :: r => if Pos.eqb x y then Some v else lookup r x end.
-Definition bind (en : env) (x : ident) (v : value) : env := (x, v) :: en.
 
 Inductive eres :=                       (* outcome of an expression *)
 | EOk (v : value) (w : world)
@@ -121,19 +173,24 @@ Definition andthen (r : eres) (k : value -> world -> eres) : eres :=
   match r with EOk v w => k v w | EExn x w => EExn x w | EUnsup => EUnsup end.
 
 (* ---- 3. operators ------------------------------------------------------------------------------ *)
+Definition int_bin (o : binop) (x y : N) : option value :=
+  match o with
+  | Add => Some (VInt (x + y))
+  | Sub => if y <=? x then Some (VInt (x - y)) else None      (* negative results are not modelled *)
+  | Mul => Some (VInt (x * y))
+  | BAnd => Some (VInt (N.land x y))
+  | BOr => Some (VInt (N.lor x y))
+  | BXor => Some (VInt (N.lxor x y))
+  | Shl => Some (VInt (N.shiftl x y))
+  | Shr => Some (VInt (N.shiftr x y))
+  | Mod => if y =? 0 then None else Some (VInt (x mod y))   (* operands are not negative: Python's % is N.modulo *)
+  end.
 Definition bin (o : binop) (a b : value) : option value :=
   match a, b with
-  | VInt x, VInt y =>
-    match o with
-    | Add => Some (VInt (x + y))
-    | Sub => if y <=? x then Some (VInt (x - y)) else None      (* negative results are not modelled *)
-    | Mul => Some (VInt (x * y))
-    | BAnd => Some (VInt (N.land x y))
-    | BOr => Some (VInt (N.lor x y))
-    | BXor => Some (VInt (N.lxor x y))
-    | Shl => Some (VInt (N.shiftl x y))
-    | Shr => Some (VInt (N.shiftr x y))
-    end
+  | VInt x, VInt y => int_bin o x y
+  | VBool p, VInt y => int_bin o (N.b2n p) y                  (* a bool in arithmetic is 0 / 1 *)
+  | VInt x, VBool q => int_bin o x (N.b2n q)
+  | VBytes x, VBytes y => match o with Add => Some (VBytes (x ++ y)) | _ => None end
   | _, _ => None
   end.
 
@@ -153,8 +210,59 @@ Definition truth (v : value) : option bool :=
   | VInt n => Some (negb (n =? 0))
   | VBool b => Some b
   | VNone => Some false
+  | VBytes l => Some (match l with [] => false | _ :: _ => true end)
   | _ => None
   end.
+
+(* x[k]: IndexError outside the sequence *)
+Definition index (v : value) (k : N) : option (option value) :=      (* None: not a sequence; Some None: IndexError *)
+  match v with
+  | VBytes l => Some (option_map VInt (nth_error l (N.to_nat k)))
+  | VList l => Some (nth_error l (N.to_nat k))
+  | _ => None
+  end.
+
+(* range(lo, hi, step), step > 0 *)
+Fixpoint range_from (n : nat) (lo step : N) : list value :=
+  match n with O => [] | S k => VInt lo :: range_from k (lo + step) step end.
+Definition range_list (lo hi step : N) : option (list value) :=
+  if step =? 0 then None
+  else Some (range_from (N.to_nat ((hi - lo + (step - 1)) / step)) lo step).
+
+(* bind the targets of a for / comprehension to one element *)
+Fixpoint bind_pat (p : pattern) (v : value) (en : env) {struct p} : option env :=
+  match p with
+  | PVar x => Some (bind en x v)
+  | PTuple ps =>
+    let fix go (ps : list pattern) (vs : list value) (en : env) : option env :=
+      match ps, vs with
+      | [], [] => Some en
+      | q :: ps', u :: vs' => match bind_pat q u en with Some en1 => go ps' vs' en1 | None => None end
+      | _, _ => None                                       (* ValueError: wrong number of values to unpack *)
+      end in
+    match v with
+    | VList vs => go ps vs en
+    | VPair a b => go ps [a; b] en
+    | _ => None
+    end
+  end.
+
+(* sorted() on pairs of ints: insertion sort by (first, second); any sort of such pairs gives this list *)
+Definition pair_leb (a b : N * N) : bool := (fst a <? fst b) || ((fst a =? fst b) && (snd a <=? snd b)).
+Fixpoint insert_pair (x : N * N) (l : list (N * N)) : list (N * N) :=
+  match l with [] => [x] | y :: r => if pair_leb x y then x :: l else y :: insert_pair x r end.
+Definition sort_pairs (l : list (N * N)) : list (N * N) := fold_right insert_pair [] l.
+Fixpoint int_pairs (l : list value) : option (list (N * N)) :=
+  match l with
+  | [] => Some []
+  | VPair (VInt a) (VInt b) :: r => option_map (cons (a, b)) (int_pairs r)
+  | _ => None
+  end.
+Fixpoint zip_values (a b : list value) : list value :=
+  match a, b with x :: a', y :: b' => VPair x y :: zip_values a' b' | _, _ => [] end.
+
+(* one byte <-> one character, the part of raw_unicode_escape that is the identity *)
+Definition all_below_256 (l : list N) : bool := forallb (fun c => c <? 256) l.
 
 Definition lift (o : option value) (w : world) : eres :=
   match o with Some v => EOk v w | None => EUnsup end.
@@ -169,6 +277,21 @@ Fixpoint for_pairs (step : N * N -> env -> world -> sres) (l : list (N * N)) (en
   match l with
   | [] => SOk CNormal en w
   | p :: r => match step p en w with SOk CNormal en1 w1 => for_pairs step r en1 w1 | other => other end
+  end.
+
+(* `for v in l: step`, where a return / raise inside `step` leaves the loop *)
+Fixpoint for_each (step : value -> env -> world -> sres) (l : list value) (en : env) (w : world) : sres :=
+  match l with
+  | [] => SOk CNormal en w
+  | v :: r => match step v en w with SOk CNormal en1 w1 => for_each step r en1 w1 | other => other end
+  end.
+(* [f v for v in l]: the elements are computed in order; an exception stops the comprehension *)
+Fixpoint comp_loop (f : value -> world -> eres) (l : list value) (w : world) : eres :=
+  match l with
+  | [] => EOk (VList []) w
+  | v :: r =>
+    andthen (f v w) (fun x w1 => andthen (comp_loop f r w1) (fun rest w2 =>
+      match rest with VList xs => EOk (VList (x :: xs)) w2 | _ => EUnsup end))
   end.
 
 Section Interp.
@@ -219,6 +342,60 @@ Fixpoint eval (en : env) (e : expr) (w : world) : eres :=
         andthen (eval en c w2) (fun vc w3 => call f [va; vb; vc] w3)))
   | ETerm c => EOk (VTerm c) w
   | EUnsupported => EUnsup
+  | EField f => lift (lookup w.(w_dev).(d_self) f) w            (* an unset attribute (AttributeError) is Unsupported *)
+  | EBytes l => EOk (VBytes l) w
+  | EIndex a i => andthen (eval en a w) (fun va w1 => andthen (eval en i w1) (fun vi w2 =>
+        match vi with
+        | VInt k => match index va k with
+                    | Some (Some x) => EOk x w2
+                    | Some None => EExn XIndex w2
+                    | None => EUnsup
+                    end
+        | _ => EUnsup
+        end))
+  | ESliceFrom a i => andthen (eval en a w) (fun va w1 => andthen (eval en i w1) (fun vi w2 =>
+        match va, vi with
+        | VBytes l, VInt k => EOk (VBytes (skipn (N.to_nat k) l)) w2
+        | VList l, VInt k => EOk (VList (skipn (N.to_nat k) l)) w2
+        | _, _ => EUnsup
+        end))
+  | ELen a => andthen (eval en a w) (fun va w1 =>
+        match va with
+        | VBytes l => EOk (VInt (N.of_nat (length l))) w1
+        | VList l => EOk (VInt (N.of_nat (length l))) w1
+        | _ => EUnsup
+        end)
+  | EToBytes1 a => andthen (eval en a w) (fun va w1 =>
+        match va with
+        | VInt n => if n <? 256 then EOk (VBytes [n]) w1 else EExn XOverflow w1
+        | _ => EUnsup
+        end)
+  | EEncode a => andthen (eval en a w) (fun va w1 =>
+        match va with VText l => if all_below_256 l then EOk (VBytes l) w1 else EUnsup | _ => EUnsup end)
+  | EDecode a => andthen (eval en a w) (fun va w1 =>
+        match va with VBytes l => if all_below_256 l then EOk (VText l) w1 else EUnsup | _ => EUnsup end)
+  | ENil => EOk (VList []) w
+  | ERange lo hi step => andthen (eval en lo w) (fun vl w1 => andthen (eval en hi w1) (fun vh w2 =>
+        andthen (eval en step w2) (fun vs w3 =>
+          match vl, vh, vs with
+          | VInt a, VInt b, VInt s => lift (option_map VList (range_list a b s)) w3
+          | _, _, _ => EUnsup
+          end)))
+  | EListComp elt p it => andthen (eval en it w) (fun vi w1 =>     (* the targets are local to the comprehension *)
+        match vi with
+        | VList l => comp_loop (fun v w' => match bind_pat p v en with Some en' => eval en' elt w' | None => EUnsup end) l w1
+        | _ => EUnsup
+        end)
+  | ESorted a => andthen (eval en a w) (fun va w1 =>
+        match va with
+        | VList l => match int_pairs l with
+                     | Some ps => EOk (VList (map (fun q => VPair (VInt (fst q)) (VInt (snd q))) (sort_pairs ps))) w1
+                     | None => EUnsup
+                     end
+        | _ => EUnsup
+        end)
+  | EZip a b => andthen (eval en a w) (fun va w1 => andthen (eval en b w1) (fun vb w2 =>
+        match va, vb with VList x, VList y => EOk (VList (zip_values x y)) w2 | _, _ => EUnsup end))
   end.
 
 (* run an expression inside a statement: a value continues, an exception becomes the statement's outcome *)
@@ -255,7 +432,7 @@ Fixpoint exec (s : stmt) (en : env) (w : world) : sres :=
           end))
   | SSetOpCounter e => on_value en (eval en e w) (fun v w1 =>
         match v with
-        | VInt n => SOk CNormal en (mkworld w1.(w_mem) w1.(w_inp) w1.(w_out) w1.(w_hist) n)
+        | VInt n => SOk CNormal en (mkworld w1.(w_mem) w1.(w_inp) w1.(w_out) w1.(w_hist) n w1.(w_dev))
         | _ => SUnsup
         end)
   | STry body k handler =>
@@ -265,6 +442,31 @@ Fixpoint exec (s : stmt) (en : env) (w : world) : sres :=
         end
   | SForZB x y body =>
         for_pairs (fun p en w => exec body (bind (bind en x (VInt (fst p))) y (VInt (snd p))) w) cfg.(c_zeros) en w
+  | SFieldSet f e => on_value en (eval en e w) (fun v w1 =>
+        SOk CNormal en (with_self w1 (bind w1.(w_dev).(d_self) f v)))
+  | SFieldAug f o e =>                             (* the attribute is read first, as for SAug *)
+        match lookup w.(w_dev).(d_self) f with
+        | None => SUnsup
+        | Some vf => on_value en (eval en e w) (fun v w1 =>
+            match bin o vf v with
+            | Some r => SOk CNormal en (with_self w1 (bind w1.(w_dev).(d_self) f r))
+            | None => SUnsup
+            end)
+        end
+  | SRaiseExn x msg => on_value en (eval en msg w) (fun _ w1 => SOk (CRaise x) en w1)
+  | SMemClear => SOk CNormal en (with_mem w (PositiveMap.empty N))
+  | SFieldAppend f e =>                            (* the attribute (its bound method) is looked up first *)
+        match lookup w.(w_dev).(d_self) f with
+        | Some (VList l) => on_value en (eval en e w) (fun v w1 =>
+            SOk CNormal en (with_self w1 (bind w1.(w_dev).(d_self) f (VList (l ++ [v])))))
+        | _ => SUnsup
+        end
+  | SFor p it body => on_value en (eval en it w) (fun vi w1 =>
+        match vi with
+        | VList l => for_each (fun v en1 w2 => match bind_pat p v en1 with Some en2 => exec body en2 w2 | None => SUnsup end)
+                              l en w1
+        | _ => SUnsup
+        end)
   end.
 End Interp.
 
@@ -275,15 +477,25 @@ Definition prim (f : fname) (args : list value) (w : world) : option eres :=
   | P_io_read_bit, [] =>                                        (* next input bit, IOReadOnEOF when exhausted *)
       Some match w.(w_inp) with
            | [] => EExn XEOF w
-           | b :: r => EOk (VBool b) (mkworld w.(w_mem) r w.(w_out) w.(w_hist) w.(w_opc))
+           | b :: r => EOk (VBool b) (mkworld w.(w_mem) r w.(w_out) w.(w_hist) w.(w_opc) w.(w_dev))
            end
   | P_io_write_bit, [VBool b] =>
-      Some (EOk VNone (mkworld w.(w_mem) w.(w_inp) (b :: w.(w_out)) w.(w_hist) w.(w_opc)))
+      Some (EOk VNone (mkworld w.(w_mem) w.(w_inp) (b :: w.(w_out)) w.(w_hist) w.(w_opc) w.(w_dev)))
   | P_register_op_address, [VInt a] =>                          (* the last-ops ring: its content is the newest k *)
-      Some (EOk VNone (mkworld w.(w_mem) w.(w_inp) w.(w_out) (a :: w.(w_hist)) w.(w_opc)))
+      Some (EOk VNone (mkworld w.(w_mem) w.(w_inp) w.(w_out) (a :: w.(w_hist)) w.(w_opc) w.(w_dev)))
   | P_register_op, [VInt _; VInt _; VInt _] =>                  (* op_counter += 1 (flip/jump counters not modelled) *)
-      Some (EOk VNone (mkworld w.(w_mem) w.(w_inp) w.(w_out) w.(w_hist) (w.(w_opc) + 1)))
-  | (P_io_read_bit | P_io_write_bit | P_register_op_address | P_register_op), _ => Some EUnsup
+      Some (EOk VNone (mkworld w.(w_mem) w.(w_inp) w.(w_out) w.(w_hist) (w.(w_opc) + 1) w.(w_dev)))
+  | P_stdin_read, [VInt 1] =>                                   (* stdin.read(1): one character, '' at end of input *)
+      Some match w.(w_dev).(d_stdin) with
+           | [] => EOk (VText []) w
+           | c :: r => EOk (VText [c]) (with_dev w (mkdev w.(w_dev).(d_self) r w.(w_dev).(d_stdout)))
+           end
+  | P_stdout_write, [VText l] =>
+      Some (EOk (VInt (N.of_nat (length l)))                     (* the number of characters written *)
+                (with_dev w (mkdev w.(w_dev).(d_self) w.(w_dev).(d_stdin) (w.(w_dev).(d_stdout) ++ l))))
+  | P_stdout_flush, [] => Some (EOk VNone w)
+  | (P_io_read_bit | P_io_write_bit | P_register_op_address | P_register_op
+     | P_stdin_read | P_stdout_write | P_stdout_flush), _ => Some EUnsup
   | _, _ => None
   end.
 
